@@ -82,7 +82,101 @@ class _Logger(ast.NodeTransformer):
         return node
 
 
+class _Hoister(ast.NodeTransformer):
+    """Inside functions: every non-trivial argument of a call that is the whole value of a simple statement is first
+    bound to a fresh local (`_h3 = <arg>`), left to right, and the call uses the local."""
+    def __init__(self):
+        self.n = 0
+        self.depth = 0
+
+    def visit_FunctionDef(self, node):
+        self.depth += 1
+        node.body = self._block(node.body)
+        self.depth -= 1
+        return node
+
+    def visit_Lambda(self, node):
+        return node
+
+    def _block(self, stmts):
+        out = []
+        for st in stmts:
+            if isinstance(st, (ast.FunctionDef, ast.AsyncFunctionDef)):
+                out.append(self.visit_FunctionDef(st)); continue
+            if isinstance(st, ast.ClassDef):
+                out.append(st); continue
+            for fld in ("body", "orelse", "finalbody"):
+                if isinstance(getattr(st, fld, None), list) and getattr(st, fld) and isinstance(getattr(st, fld)[0], ast.stmt):
+                    setattr(st, fld, self._block(getattr(st, fld)))
+            for h in getattr(st, "handlers", []) or []:
+                h.body = self._block(h.body)
+            if isinstance(st, (ast.Assign, ast.AnnAssign, ast.AugAssign, ast.Expr, ast.Return)) and isinstance(st.value, ast.Call):
+                c = st.value
+                if not any(isinstance(a, ast.Starred) for a in c.args) and all(k.arg for k in c.keywords) \
+                        and not (isinstance(c.func, ast.Name) and c.func.id in ("super", "isinstance", "len", "range", "zip", "enumerate")):
+                    def tmp(e):
+                        if isinstance(e, (ast.Name, ast.Constant)):
+                            return e
+                        if any(isinstance(x, (ast.NamedExpr, ast.Yield, ast.YieldFrom, ast.Await)) for x in ast.walk(e)):
+                            return e
+                        name = f"_h{self.n}"
+                        self.n += 1
+                        out.append(ast.Assign(targets=[ast.Name(id=name, ctx=ast.Store())], value=e, lineno=st.lineno))
+                        return ast.Name(id=name, ctx=ast.Load())
+                    c.args = [tmp(a) for a in c.args]
+                    for k in c.keywords:
+                        k.value = tmp(k.value)
+            out.append(st)
+        return out
+
+
+def _kw_overlay(kind):
+    """kw: positional arguments of statically resolved calls to repository functions become keywords;
+    pos: keyword arguments that continue the positional prefix become positional."""
+    from sa.model import Program
+    from sa.rules import kwswap, util
+    prog = Program()
+    for f in prog.funcs.values():
+        for call in list(util.walk_own(f.node)):
+            if not isinstance(call, ast.Call):
+                continue
+            callee, skip = kwswap._resolve(prog, f, call)
+            if callee is None or any(isinstance(x, ast.Starred) for x in call.args) or any(k.arg is None for k in call.keywords):
+                continue
+            a = callee.node.args
+            if a.vararg or a.posonlyargs or "overload" in getattr(callee, "decorators", ()):
+                continue
+            if callee.node.decorator_list and not (callee.is_static or callee.is_classmethod):
+                continue
+            pos = [x.arg for x in a.args]
+            if skip and pos:
+                pos = pos[1:]
+            if len(call.args) > len(pos):
+                continue
+            if kind == "kw":
+                # keep the first argument positional (most common style), turn the rest into keywords
+                keep = 1 if call.args else 0
+                new_kw = [ast.keyword(arg=pos[i], value=call.args[i]) for i in range(keep, len(call.args))]
+                call.args = call.args[:keep]
+                call.keywords = new_kw + call.keywords
+            else:
+                kws = {k.arg: k for k in call.keywords}
+                i = len(call.args)
+                while i < len(pos) and pos[i] in kws:
+                    call.args.append(kws[pos[i]].value)
+                    call.keywords.remove(kws[pos[i]])
+                    i += 1
+    ov = {}
+    for m in prog.modules.values():
+        if m.relpath.endswith(".py") and m.name.split(".")[0] in PACKAGES:
+            ov[m.relpath] = ast.unparse(ast.fix_missing_locations(m.tree)) + "\n"
+            compile(ov[m.relpath], m.relpath, "exec")
+    return ov
+
+
 def overlay(kind):
+    if kind in ('kw', 'pos'):
+        return _kw_overlay(kind)
     ov = {}
     root = repo_root()
     for pkg in PACKAGES:
@@ -98,6 +192,9 @@ def overlay(kind):
                         compile(ov[rel], rel, "exec")
                     elif kind == "assert2if":
                         ov[rel] = ast.unparse(ast.fix_missing_locations(_Assert2If().visit(ast.parse(src)))) + "\n"
+                        compile(ov[rel], rel, "exec")
+                    elif kind == "hoist":
+                        ov[rel] = ast.unparse(ast.fix_missing_locations(_Hoister().visit(ast.parse(src)))) + "\n"
                         compile(ov[rel], rel, "exec")
                     elif kind == "log":
                         ov[rel] = ast.unparse(ast.fix_missing_locations(_Logger().visit(ast.parse(src)))) + "\n"
@@ -116,6 +213,10 @@ for kind in KINDS:
             tw, _ = run_property(pid, "quick", overlay=ov)
         except AnalysisError as e:
             print(f"{kind} {pid}: ANALYSIS-ERROR {e}"); bad += 1; continue
+        except Exception as e:
+            import traceback
+            tb = traceback.extract_tb(e.__traceback__)[-1]
+            print(f"{kind} {pid}: CRASH {type(e).__name__} {e} at {tb.filename}:{tb.lineno}"); bad += 1; continue
         b = {o.key: o.ok for o in base.obs}
         t = {o.key: o.ok for o in tw.obs}
         if b != t:
